@@ -29,8 +29,34 @@ def SLACK : Nat := 15
 /-! ## Keys -/
 
 /-- ASCII lower-casing as in `dns.CanonicalName` (only `A`–`Z` are affected). -/
-def lowerAscii (c : Char) : Char :=
-  if 'A'.toNat ≤ c.toNat ∧ c.toNat ≤ 'Z'.toNat then Char.ofNat (c.toNat + 32) else c
+def lowerAscii : Char → Char
+  | 'A' => 'a'
+  | 'B' => 'b'
+  | 'C' => 'c'
+  | 'D' => 'd'
+  | 'E' => 'e'
+  | 'F' => 'f'
+  | 'G' => 'g'
+  | 'H' => 'h'
+  | 'I' => 'i'
+  | 'J' => 'j'
+  | 'K' => 'k'
+  | 'L' => 'l'
+  | 'M' => 'm'
+  | 'N' => 'n'
+  | 'O' => 'o'
+  | 'P' => 'p'
+  | 'Q' => 'q'
+  | 'R' => 'r'
+  | 'S' => 's'
+  | 'T' => 't'
+  | 'U' => 'u'
+  | 'V' => 'v'
+  | 'W' => 'w'
+  | 'X' => 'x'
+  | 'Y' => 'y'
+  | 'Z' => 'z'
+  | c => c
 
 /-- `dns.IsFqdn`: ends with a dot that is not escaped (an even number of backslashes before it). -/
 def isFqdn (s : List Char) : Bool :=
@@ -61,11 +87,11 @@ deriving DecidableEq, Repr
 
 /-- `responseCacheScope` -/
 def scopeOf : Route → List Char
-  | .asIs (some d) => "asis@".toList ++ d
-  | .asIs Option.none => "asis".toList
-  | .reject => "reject".toList
-  | .upstream s => "upstream@".toList ++ s
-  | .index i => "upstream-index@".toList ++ Nat.toDigits 10 i
+  | .asIs (some d) => ['a', 's', 'i', 's', '@'] ++ d
+  | .asIs Option.none => ['a', 's', 'i', 's']
+  | .reject => ['r', 'e', 'j', 'e', 'c', 't']
+  | .upstream s => ['u', 'p', 's', 't', 'r', 'e', 'a', 'm', '@'] ++ s
+  | .index i => ['u', 'p', 's', 't', 'r', 'e', 'a', 'm', '-', 'i', 'n', 'd', 'e', 'x', '@'] ++ Nat.toDigits 10 i
   | .none => []
 
 /-- `responseCacheKey` -/
